@@ -147,6 +147,17 @@ def decorate(w, variant):
             ob.payload = shared                     # one object shared by all
         if variant % 3 == 0:
             ob.nested = {"k": (j, [j, j + 1])}
+    import http
+    from edgegraph.structure import Vertex, Universe, DirectedEdge, UnDirectedEdge
+    for j, ob in enumerate(objs):
+        if variant % 2 == 0:
+            # the same class object / enum member reachable twice from one container
+            ob.src_type = DirectedEdge
+            ob.dst_type = DirectedEdge
+            ob.status = http.HTTPStatus.OK
+            ob.fallback = http.HTTPStatus.OK
+        if (variant + j) % 3 == 1:
+            ob.rules = {Vertex: {Vertex: UnDirectedEdge, Universe: UnDirectedEdge}}
     for j, e in enumerate(x for x in w.L if x is not None):
         e.weight = j * 1.5
         if variant % 2:
@@ -214,7 +225,7 @@ def roundtrip_same_process(w, protocol, loader):
 
 FRESH_SCRIPT = r"""
 import sys, json, pickle
-import os; sys.path.insert(0, os.environ.get('VERIF_ROOT', '/verif')); sys.path.insert(0, '/repo')
+import os; sys.path.insert(0, os.environ.get('VERIF_ROOT', '/verif')); sys.path.insert(0, os.environ.get('VERIF_REPO', '/repo'))
 import dill
 from edgegraph.structure import Vertex
 job = json.load(open(sys.argv[1]))
@@ -330,3 +341,46 @@ def recursive_closure_case():
         return "" if callable(w[0].on_visit) else "CopyDiffers"
     except Exception as exc:
         return type(exc).__name__
+
+
+MAIN_SUPER_SCRIPT = r"""
+import sys, os, signal, pickle
+sys.path.insert(0, os.environ.get('VERIF_REPO', '/repo'))
+from edgegraph.structure import Vertex
+from edgegraph.output import nrpickler
+import dill
+
+class MyVertex(Vertex):                 # defined in __main__: dill pickles the class by value
+    def __init__(self, **kw):
+        super().__init__(**kw)          # zero-argument super(): the method's closure holds the class itself
+
+v = MyVertex()
+try:
+    dill.dumps(v)
+except Exception:
+    print("RESULT outside-domain"); sys.exit(0)
+def on_alarm(*a):
+    print("RESULT Hang"); sys.stdout.flush(); os._exit(0)
+signal.signal(signal.SIGALRM, on_alarm); signal.alarm(20)
+try:
+    w = pickle.loads(nrpickler.dumps(v))
+    print("RESULT " + ("ok" if type(w).__name__ == "MyVertex" and w.uid == v.uid else "CopyDiffers"))
+except Exception as exc:
+    print("RESULT " + type(exc).__name__)
+"""
+
+
+def main_super_case(wd):
+    """an instance of a Vertex subclass defined in __main__ whose __init__ uses zero-argument super();
+    returns '' if the round trip works, else 'Hang' / the exception class"""
+    script = os.path.join(wd, "main_super_case.py")
+    with open(script, "w") as f:
+        f.write(MAIN_SUPER_SCRIPT)
+    try:
+        p = subprocess.run([sys.executable, script], capture_output=True, text=True, timeout=60,
+                           env=dict(os.environ, PYTHONHASHSEED="0"))
+        line = next((l for l in p.stdout.splitlines() if l.startswith("RESULT ")), "RESULT crashed")
+    except subprocess.TimeoutExpired:
+        line = "RESULT Hang"
+    r = line.split(" ", 1)[1]
+    return "" if r in ("ok", "outside-domain") else r
